@@ -5,7 +5,7 @@
 EXTENDS AnkoContainers, Json
 
 Trace == ndJsonDeserialize("cont_trace.ndjson")
-Vars == {"a", "b", "c", "m", "n", "ta", "st", "s", "t", "tm", "sv"}
+Vars == {"a", "b", "c", "m", "n", "ta", "st", "s", "t", "tm", "sv", "su"}
 SliceVars == {"a", "b", "c", "ta"}
 
 VARIABLES st, l, skip
